@@ -231,6 +231,21 @@ def cases(rng, tier):
                     chunks = [body[:cut1], body[cut1:cut2], body[cut2:]]
                     yield _ev(b, "utf8", chunks)
                     yield _stream(rng.choice(["mp_stream", "mp_astream"]), b, "utf8", 324, None, chunks)
+    # charset labels that name no text encoding: codecs of another kind (their payload must not be "decoded"), unknown
+    # names, the empty label - field contents that happen to be valid hex / base64 / compressed data included
+    import zlib as _z
+    for cs in ("hex", "base64", "rot13", "zlib", "bz2", "quopri", "uu", "nonsense", "hex_codec", "base_64"):
+        b = b"bd"
+        parts = [M.Part("f", b"4142"), M.Part("g", b"QUJD"), M.Part("h", b"uryyb"), M.Part("z", _z.compress(b"payload")),
+                 M.Part("up", b"4142", "41.bin", [("Content-Type", "text/plain")]), M.Part("q", b"a=3D")]
+        body = M.encode_form(b, parts)
+        for chunks in ([body], M.rand_partition(rng, body)):
+            yield _ev(b, cs, chunks)
+            for sop in ("mp_stream", "mp_astream", "mp_stream_min", "mp_astream_min"):
+                yield _stream(sop, b, cs, 324, None, chunks)
+            ct = "multipart/form-data; boundary=bd; charset=" + cs
+            yield "mp_wsgi_form %s %s" % (enc(ct), M.enc_chunks([c for c in chunks if c]))     # an empty read is EOF
+            yield "mp_asgi_form %s %s" % (enc(ct), M.enc_chunks(chunks))
     # forms with exactly as many parts as the documented limit allows (and one fewer)
     for k in (323, 324):
         b = b"bd"
